@@ -332,6 +332,11 @@ class IntroVisitor(ast.NodeVisitor):
         # Plain names and constants are left to the regular visit below.
         all_args = list(node.args) + [kw.value for kw in node.keywords]
         nested_args = [a for a in all_args if not isinstance(a, (ast.Name, ast.Constant))]
+        # The expression that is called is evaluated before the arguments: when it contains calls itself
+        # (f(x).method(g(y))), they come first.
+        func_first = _attribute_names(node.func) is None
+        if func_first:
+            self.visit(node.func)
         for a in nested_args:
             self.visit(a)
         # This is a bit brute-force (not working for multi-line function calls)
@@ -362,7 +367,8 @@ class IntroVisitor(ast.NodeVisitor):
         if fi_or_p is not None and isinstance(fi_or_p, str):
             self.load_paths.append(fi_or_p)
         # The rest of the call (the nested arguments have been visited already)
-        self.visit(node.func)
+        if not func_first:
+            self.visit(node.func)
         for a in all_args:
             if not any(a is a0 for a0 in nested_args):
                 self.visit(a)
@@ -609,6 +615,10 @@ def _function_name(node: ast.AST) -> List[str]:
     if isinstance(node, ast.BinOp):
         return [type(node).__name__.split(".")[-1]]
     if isinstance(node, ast.Attribute):
+        if isinstance(node.value, ast.Call):
+            # A method of the result of a call (f(x).method(y)): this is not the function that
+            # is called inside, and not a name that can be found in a module.
+            return ["Call()", node.attr]
         return _function_name(node.value) + [node.attr]
     if isinstance(node, ast.Call):
         return _function_name(node.func)
